@@ -26,7 +26,7 @@ ASSUMPTIONS = ["thread interleavings and address-space layout cannot be exhibite
 def correspond(run):
     outs = []
     for i in range(2):     # two processes
-        rc, js, out, err = vlib.harness(["purity", "--seed", run.seed], timeout=900)
+        rc, js, out, err = vlib.harness(["purity", "--seed", run.seed] + (["--order", "rev"] if i == 1 else []), timeout=900)
         if rc != 0 or js is None:
             run.oblige("differential:purity-run", "correspondence", False, (out[-300:] + err[-300:]))
             return
@@ -35,15 +35,17 @@ def correspond(run):
     for d in a["diffs"] + b["diffs"]:
         run.violation("impure-" + d["sketcher"], "%s: sketches differ between %s (configuration %d)" % (d["sketcher"], d["where"], d["cfg"]),
                       {"kind": "impl-input", "sketcher": d["sketcher"], "input": {"cfg": d["cfg"], "seed": run.seed}, "observed": d["where"]})
-    for x, y in zip(a["sketches"], b["sketches"]):
+    bmap = {y["cfg"]: y for y in b["sketches"]}
+    for x in a["sketches"]:
+        y = bmap.get(x["cfg"]) or {"words": []}
         if x["words"] != y["words"]:
-            run.violation("impure-" + x["sketcher"], "%s: sketches differ between two processes (configuration %d)" % (x["sketcher"], x["cfg"]),
+            run.violation("impure-" + x["sketcher"], "%s: sketches differ between two processes that run the same configurations in opposite orders (configuration %d)" % (x["sketcher"], x["cfg"]),
                           {"kind": "impl-input", "sketcher": x["sketcher"], "input": {"cfg": x["cfg"], "seed": run.seed},
                            "observed": {"process1": x["words"][:8], "process2": y["words"][:8]}})
     run.add_cases(len(a["sketches"]) * 11, len(a["sketches"]),
                   [{"sketcher": s["sketcher"], "cfg": s["cfg"], "first_words": s["words"][:4]} for s in a["sketches"][:3]],
-                  rule="every sketcher type (12) x 3 parameterisations: instance 1, instance 2, 8 concurrent threads, and the "
-                       "same again in a second process; all compared bitwise; non-trivial = one per configuration")
+                  rule="every sketcher type and entry point (22) x 3 parameterisations: instance 1, instance 2, 8 concurrent threads, and the "
+                       "same again in a second process that runs the configurations in the opposite order; all compared bitwise; non-trivial = one per configuration")
     run.oblige("differential:two-processes", "correspondence", True, "")
 
 
